@@ -482,9 +482,16 @@ def rule_puller(model):
         touched = [n for n in own_nodes(fi.node)
                    if isinstance(n, ast.Attribute) and n.attr == it_attr
                    and isinstance(n.value, ast.Name) and n.value.id == 'self']
-        if touched and not any(
-                c.where == fi.where for g in model.closure(gi)
-                for c in [g]):
+        # a method that stores what it pulls (judged below like the
+        # element reader) is fine; one that hands the iterator's elements
+        # on itself -- a generator, or a loop over the iterator -- bypasses
+        # the cached prefix
+        hands_on = any(isinstance(n, (ast.Yield, ast.YieldFrom))
+                       for n in own_nodes(fi.node)) or any(
+            isinstance(n, (ast.For, ast.comprehension)) and any(
+                x is t for t in touched for x in ast.walk(n.iter))
+            for n in own_nodes(fi.node))
+        if touched and hands_on:
             r.finding(fi.where, touched[0], f'{fi.name}() reads the wrapped '
                       'iterator itself instead of going through the element '
                       'reader: elements already fetched (the emptiness probe '
